@@ -74,6 +74,12 @@ CHECKS["C07"] = (TV, "translation validation: symbolic execution (SSA->SMT, z3) 
     "their iterator, builtins, conversions, generic callees). The solver decides flat log equality (values, advance markers, rt.Eff evaluation events) for all inputs in bounds. "
     "Import clean-up / build clause: optimised output that fails go/types while the unoptimised output passes is reported as a front-end refutation (not a solver verdict).", "§6 C07")
 
+CHECKS["C13"] = (TV, "translation validation: symbolic execution (SSA->SMT, z3) of bystander declarations in the source package vs the generated package",
+    "Files that contain a generator (so they are processed) and bystander declarations - plain functions, value/pointer methods, generic functions, constants, package-level "
+    "variables with initialisers, closures of every eta shape named in the property with later mutation of callee/receiver, capture by reference, defer/recover, native range - are "
+    "compiled; drivers call the bystanders with symbolic arguments in both packages and the solver decides equality of the results for all 64-bit inputs. A generated file that "
+    "does not type-check (the source does) is a front-end refutation. Shapes are hand-listed, not enumerated.", "§6 C13")
+
 NA = {
     "C11": "compiler acceptance/buildability is decided by the compiler pipeline itself (go/packages, go/types, reflection-based AST rewriting, printer, file system); it cannot be encoded by an SSA->SMT translator and has no symbolic dimension once a program is fixed — enumeration of concrete compiler runs would be a different technique (DESIGN §7)",
     "C15": "byte-identical output across runs/configurations is a statement about repeated process runs, map iteration in the compiler and leftovers on disk; no symbolic inputs and the code is not encodable (DESIGN §7)",
